@@ -3,9 +3,11 @@
 verus! {
 //@ include prelude/base.rs
 //@ include prelude/std_assumed.rs
+//@ include prelude/ansi_term.rs
+//@ include prelude/style.rs
 //@ shims config
 //@ broadcast vax::vax_group vstd::std_specs::hash::group_hash_axioms axiom_string_obeys_key_model axiom_maps_borrowed_functional
-//@ type src/config.rs Config keep=blame_palette
+//@ type src/config.rs Config keep=blame_palette,blame_code_style,blame_separator_style
 //@ type src/delta.rs StateMachine keep=config,blame_key_colors
 
 use vstd::std_specs::hash::*;
@@ -54,6 +56,15 @@ impl<'a> StateMachine<'a> {
     //@ fn src/handlers/blame.rs StateMachine::get_color spec=blame.get_color
     //@rewrite <<<debug_assert!(key_color == previous_key_color);>>> => <<<debug_assert!(*key_color == *previous_key_color);>>>
     //@rewrite <<<if key_color != previous_key_color {>>> => <<<if *key_color != *previous_key_color {>>>
+
+    // handle_blame_line: which style the code part and the separators of a blame line get
+    //@ region src/handlers/blame.rs StateMachine::handle_blame_line
+    //@sig pub fn blame_line_styles(&self, metadata_style: Style) -> (r: (Style, Style))
+    //@fromafter <<<self.blame_metadata_style(&key, previous_key.as_deref(), is_repeat);>>>
+    //@until <<<let (nr_prefix, line_number, nr_suffix)>>>
+    //@tail (code_style, separator_style)
+    //@| ensures r.0 == (match self.config.blame_code_style { Some(s) => s, None => metadata_style }),  // @C15,C17:a.configured.blame.code.style.is.used.as.given
+    //@|         r.1 == (match self.config.blame_separator_style { Some(s) => s, None => r.0 }),  // @C17:blame.separator.style.defaults.to.the.code.style
 }
 
 } // verus!
